@@ -329,7 +329,16 @@ func repairTail(file *os.File) ([]byte, error) {
 	if len(trimmed) == 0 || json.Unmarshal(trimmed, &event) == nil {
 		return []byte{'\n'}, nil
 	}
-	return nil, file.Truncate(start)
+	if err := file.Truncate(start); err != nil {
+		return nil, err
+	}
+	// A lock-free reader may have read part of the fragment already. What is
+	// written in its place starts with blank lines covering the fragment's whole
+	// length, so that such a reader finds a newline where it resumes: the piece
+	// it holds then fails to parse (and the read is repeated, see readEvents)
+	// instead of being glued onto the tail of a new event - which could even
+	// happen to be well-formed and show an item that never existed.
+	return bytes.Repeat([]byte{'\n'}, len(fragment)+1), nil
 }
 
 func writeEventsFile(path string, events []Event) error {
